@@ -21,6 +21,12 @@ CHECKS['C10'] = dict(tech='MIR symbolic execution (mirsym) sweep of every ProtoF
 CHECKS['C16'] = dict(tech='MIR symbolic execution (mirsym) of prunable_mpsc Sender::send / Receiver::recv instantiated with the real bft filter and selection functions + z3; counterexamples replayed through the real channel',
     text='bounded (<= 2 / 3 pending requests, all four message kinds): one send step from an arbitrary buffer satisfying one-per-(sender,kind) re-establishes the invariant, drops an entry only for an invalid signature or a same-class request of equal-or-higher view, keeps the maximum view per class and the arrival order; recv returns the front; all sender identities, views and signature validities covered symbolically',
     note='trusted: watch channel modelled as a cell (one send = one critical section), ideal signatures; concurrent senders and the replica-internal vote caches are outside this check', ref='4/C16')
+CHECKS['C03'] = dict(tech='MIR symbolic execution (mirsym) of the replica handler coroutines (on_proposal, on_commit, on_timeout, on_new_view, start_timeout, start_new_view) with an effect log + z3',
+    text='one handler step from an arbitrary replica state on an arbitrary input (N=2 quick / 2..3 thorough, symbolic weights, views, phases, certificates): commit/timeout vote discipline, (view, phase) monotonicity, and persist-before-send (every outbound message preceded by a successful set_state whose snapshot equals the state it was derived from) on every path',
+    note='trusted: environment futures answered by contract, certificate verification summarised by the contract decided in C04, ideal signing; the lift from one-step obligations to whole runs with crashes is a paper induction; counterexamples are not yet replayed against the compiled replica (no bft hook)', ref='4/C03')
+CHECKS['C05'] = dict(tech='MIR symbolic execution (mirsym) of the replica handler coroutines with an effect log + z3',
+    text='one handler step from an arbitrary replica state: held certificates never decrease and are adopted only when accepted, view changes only with a certificate for the preceding view, every emitted new-view carries the highest certificate held (commit on ties), (view, phase) monotone',
+    note='same trusted base as C03; conformance of the accept/reject classes to spec/informal-spec/replica.rs is covered only through these obligations, not as a full transition-relation comparison', ref='4/C03-C05')
 NA = {
  'C01': 'agreement quantifies over all multi-node schedules x Byzantine behaviours x crash points of the async replica system; no bounded solver encoding of the real replicas is within reach (its local obligations are decided under C02, C03, C04, C05, C07, C11)',
  'C06': 'liveness over fair infinite suffixes from adversarially reached states; not expressible as a bounded symbolic-execution query',
